@@ -1,10 +1,11 @@
 #!/venv/bin/python
 """Entry point: /venv/bin/python /verif/harness/check.py <ID> [--tier quick|thorough] [--replay FILE]"""
 import sys, os, argparse, importlib, traceback
-os.environ["PYTHONPATH"] = "/repo"
+REPO = os.environ.get("OPC_REPO", "/repo")
+os.environ["PYTHONPATH"] = REPO
 os.environ.setdefault("PYTHONHASHSEED", "0")
-sys.path.insert(0, "/verif/harness")
-sys.path.insert(0, "/repo")
+sys.path.insert(0, os.path.dirname(os.path.abspath(__file__)))
+sys.path.insert(0, REPO)
 from lib.common import Run, stage_a
 
 def main():
